@@ -56,9 +56,10 @@ def cs_spec(b):
       r = _real_checksum(data, start, skip_word)
       CSUM_CALLS.append((data, skip_word, r))
       return r
-    import pox.lib.packet.ipv4 as m4, pox.lib.packet.udp as mu, pox.lib.packet.tcp as mt, pox.lib.packet.icmp as mi
-    for m in (m4, mu, mt, mi):
-      m.checksum = rec
+    import sys
+    # NB `import pox.lib.packet.udp as m` binds the CLASS udp (the package re-exports it under the module's name)
+    for nm in ("ipv4", "udp", "tcp", "icmp"):
+      sys.modules["pox.lib.packet." + nm].checksum = rec
     return {}
   def ret(I, st, args, kws):
     from pyvc.values import fresh_int
@@ -208,6 +209,43 @@ def ipv4_udp_datagram(b):
     and res[1].next.iplen == 20 + ulen and type(res[1].next.next) is udp and res[1].next.next.srcport == sp
     and res[1].next.next.dstport == dp and res[1].next.next.len == ulen and res[1].next.next.next == data,
   })
+
+
+def _mk_ipv4_options(hl):
+  """IPv4 header with options (hl words): total length and checksum cover the options; parse returns them"""
+  @unit(P, target=PK + "ipv4:ipv4.hdr/checksum/parse (header with options)", name="ipv4_with_%d_option_bytes_udp" % ((hl - 5) * 4))
+  def u(b):
+    sp = b.int("udp.srcport", 1024, 4000)
+    dp = b.int("udp.dstport", 1024, 4000)
+    data = payload_bytes(b, maxlen=1400)
+    n = len(data) if b.mode == "conc" else data.length()
+    opts = b.bytes("ip.options", (hl - 5) * 4)
+    ud = b.new(udp)
+    b.set(ud, "srcport", sp)
+    b.set(ud, "dstport", dp)
+    b.run(udp.set_payload, ud, data)
+    ip, f, sip, dip = ip_header(b, 17, ud)
+    b.set(ip, "hl", hl)
+    b.set(ip, "raw_options", opts)
+    e, _, (dst, src) = ether(b, 0x0800, ip)
+    ulen = 8 + n
+    total = hl * 4 + ulen
+    def hdr_bytes(csum):
+      return bytes([0x40 + hl]) + ip_bytes(f, 17, sip, dip, total, csum)[1:] + opts
+    return Case(_rt, [e], calls=cs_spec(b), ensures={
+      "ip_checksum_covers_the_header_and_its_options_with_a_zero_checksum_field":
+        lambda res: cs_calls(b)[1][0] == hdr_bytes(0),
+      "layout_total_length_counts_the_options":
+        lambda res: res[0] == eth_bytes(dst, src, 0x0800) + hdr_bytes(cs_calls(b)[1][2])
+        + be(sp, 2) + be(dp, 2) + be(ulen, 2) + be(65535 if cs_calls(b)[0][2] == 0 else cs_calls(b)[0][2], 2) + data,
+      "fields_round_trip": lambda res: type(res[1].next) is ipv4 and res[1].next.hl == hl and res[1].next.raw_options == opts
+      and res[1].next.iplen == total and type(res[1].next.next) is udp and res[1].next.next.srcport == sp
+      and res[1].next.next.len == ulen and res[1].next.next.next == data,
+    })
+
+
+for _hl in (6, 7, 15):
+  _mk_ipv4_options(_hl)
 
 
 @unit(P, target=PK + "tcp:tcp.hdr/checksum/parse")
